@@ -25,10 +25,11 @@ Record sstate := mkSS {
   ss_sess : list path;
   ss_hs : list shandle;
   ss_cells : list json;
-  ss_gen : nat                      (* a fresh number for every job creation *)
+  ss_gen : nat;                     (* a fresh number for every job creation *)
+  ss_planted : list path            (* foreign directories the harness put into a workspace: never jobs *)
 }.
 
-Definition ss0 : sstate := mkSS [] [] [] [] 0.
+Definition ss0 : sstate := mkSS [] [] [] [] 0 [].
 
 (* expected result class of an operation *)
 Inductive sres := SOk | SErr (e : exn) | SAny | SJson (v : json) | SIds (l : list str) | SNum (n : N) | SBool (b : bool).
@@ -43,27 +44,27 @@ Fixpoint pset {A} (p : path) (x : A) (l : list (path * A)) : list (path * A) :=
 
 Definition proj_of (s : sstate) (r : path) : sproj := match plookup r (ss_projs s) with Some p => p | None => [] end.
 Definition set_proj (s : sstate) (r : path) (p : sproj) : sstate :=
-  mkSS (pset r p (ss_projs s)) (ss_sess s) (ss_hs s) (ss_cells s) (ss_gen s).
+  mkSS (pset r p (ss_projs s)) (ss_sess s) (ss_hs s) (ss_cells s) (ss_gen s) (ss_planted s).
 Definition hS (s : sstate) (h : nat) : shandle := nth h (ss_hs s) (mkSH [] 0 false None).
 Definition cellS (s : sstate) (c : nat) : json := nth c (ss_cells s) (JObj []).
 Definition set_hS (s : sstate) (h : nat) (x : shandle) : sstate :=
-  mkSS (ss_projs s) (ss_sess s) (set_nth h x (ss_hs s)) (ss_cells s) (ss_gen s).
+  mkSS (ss_projs s) (ss_sess s) (set_nth h x (ss_hs s)) (ss_cells s) (ss_gen s) (ss_planted s).
 Definition set_cellS (s : sstate) (c : nat) (v : json) : sstate :=
-  mkSS (ss_projs s) (ss_sess s) (ss_hs s) (set_nth c v (ss_cells s)) (ss_gen s).
+  mkSS (ss_projs s) (ss_sess s) (ss_hs s) (set_nth c v (ss_cells s)) (ss_gen s) (ss_planted s).
 Definition add_hS (s : sstate) (x : shandle) : sstate :=
-  mkSS (ss_projs s) (ss_sess s) (ss_hs s ++ [x]) (ss_cells s) (ss_gen s).
+  mkSS (ss_projs s) (ss_sess s) (ss_hs s ++ [x]) (ss_cells s) (ss_gen s) (ss_planted s).
 Definition add_cellS (s : sstate) (v : json) : sstate :=
-  mkSS (ss_projs s) (ss_sess s) (ss_hs s) (ss_cells s ++ [v]) (ss_gen s).
+  mkSS (ss_projs s) (ss_sess s) (ss_hs s) (ss_cells s ++ [v]) (ss_gen s) (ss_planted s).
 Definition add_sessS (s : sstate) (r : path) : sstate :=
-  mkSS (ss_projs s) (ss_sess s ++ [r]) (ss_hs s) (ss_cells s) (ss_gen s).
+  mkSS (ss_projs s) (ss_sess s ++ [r]) (ss_hs s) (ss_cells s) (ss_gen s) (ss_planted s).
 Definition bump (s : sstate) : sstate :=
-  mkSS (ss_projs s) (ss_sess s) (ss_hs s) (ss_cells s) (S (ss_gen s)).
+  mkSS (ss_projs s) (ss_sess s) (ss_hs s) (ss_cells s) (S (ss_gen s)) (ss_planted s).
 Definition sessS (s : sstate) (i : nat) : path := nth i (ss_sess s) [].
 
 (* the shallow copies of a handle: all handles with the same cell *)
 Definition map_cell (s : sstate) (c : nat) (f : shandle -> shandle) : sstate :=
   mkSS (ss_projs s) (ss_sess s) (map (fun h => if Nat.eqb (sh_cell h) c then f h else h) (ss_hs s))
-       (ss_cells s) (ss_gen s).
+       (ss_cells s) (ss_gen s) (ss_planted s).
 
 Definition upd_spec (old u : json) (ov : bool) : option json :=
   if ov then Some (dict_update old u)
@@ -172,7 +173,8 @@ Section Spec.
         (match job_of s h with
          | Some j => set_job s h (mkSJ (j_sp j) (j_doc j) (set_file rel b (j_files j)) (j_gen j))
          | None => s end, SAny)
-    | OPlantDir _ | OPlantFile _ _ => (s, SAny)
+    | OPlantDir p => (mkSS (ss_projs s) (ss_sess s) (ss_hs s) (ss_cells s) (ss_gen s) (p :: ss_planted s), SAny)
+    | OPlantFile _ _ => (s, SAny)
     | OIds si => (s, SIds (map fst (proj_of s (sessS s si))))
     | OLen si => (s, SNum (N.of_nat (length (proj_of s (sessS s si)))))
     | OContains si h => (s, SBool (has_key (cid (cellS s (sh_cell (hS s h)))) (proj_of s (sessS s si))))
@@ -256,7 +258,8 @@ Section Spec.
     | Some j => match sh_doc x with Some g => negb (Nat.eqb g (j_gen j)) | None => false end
     end.
 
-  (* tag 1: F2, a directory "<32 hex><suffix>" is planted; tag 2: a re-key fails with DestinationExists (the
+  (* (tag 1, F2: a planted "<32 hex><suffix>" directory counted as a job, was repaired in /repo, fix 5a38a4a)
+     tag 2: a re-key fails with DestinationExists (the
      in-memory state point stays modified); tag 3: a document-touching operation through a stale handle;
      tag 4: a state point change raises the lock registry's KeyError *)
   (* tag 5: a handle opened by id that never loaded its state point cannot re-create / find its job once the
@@ -270,7 +273,6 @@ Section Spec.
 
   Definition trigger (s : sstate) (o : op) (r : sres) (out : oval) : nat :=
     match o with
-    | OPlantDir p => if suffix_id_name (last p []) then 1 else 0
     | OEdit _ _ _ | OAssign _ _ | OUpdateSp _ _ _ =>
         match r, out with
         | SErr EDestinationExists, _ => 2
@@ -281,6 +283,8 @@ Section Spec.
     | ODoc h | ODocSet h _ _ | ODocReset h _ | OClear h | OReset h | ORemove h =>
         if stale_handle s h then 3 else lazy_gone r out
     | OInit _ _ | OSp _ | OMove _ _ | OClone _ _ | OCopy _ | OPickle _ | OCached _ => lazy_gone r out
+    (* tag 6: open_job(id = a string that is not an id) succeeds when workspace/<string> exists *)
+    | OOpenId _ _ => match out with VStr m => if is_id m then 0 else 6 | _ => 0 end
     | _ => 0
     end.
 
@@ -305,13 +309,18 @@ Section Spec.
 
   (* raw walk: below <root>/workspace only exactly-id-named directories that are jobs of the view, and no
      temporary / backup file anywhere *)
-  Definition tree_clean (t : fs) (r : path) (ids : list str) : bool :=
+  Definition tree_clean (planted : list path) (t : fs) (r : path) (ids : list str) : bool :=
     forallb (fun e =>
+      existsb (fun p => under p (fst e)) planted ||
       match strip (r ++ [WS]) (fst e) with
       | Some [n] => is_id n && str_mem n ids && match snd e with Dir => true | _ => false end
       | Some (_ :: rest) => let n := last rest [] in negb (ends_with_tilde n) && negb (starts_dot_underscore n)
       | _ => true
-      end) t.
+      end) t
+    (* ... and a planted directory is never listed as a job unless its name is exactly an id *)
+    && forallb (fun p => match strip (r ++ [WS]) p with
+                         | Some [n] => is_id n || negb (str_mem n ids)
+                         | _ => true end) planted.
 
   (* every job of the view is named by the hash of its state point *)
   Definition names_hash (v : list jview) : bool :=
@@ -326,7 +335,7 @@ Section Spec.
     forallb (fun x => match x with
                       | (r, v, chk) =>
                           views_same (spec_view (proj_of s r)) v && chk && names_hash v
-                          && tree_clean t r (map v_id v)
+                          && tree_clean (ss_planted s) t r (map v_id v)
                       end) vs.
 
   Record step_C03 := mkStep3 { t_op : op; t_out : oval; t_snap : oval }.
